@@ -31,15 +31,15 @@ type GenSpec struct {
 
 // RunSpec is one NewContext+Execute in a fresh process.
 type RunSpec struct {
-	Dir     string              `json:"dir"`
-	Layout  string              `json:"layout"`
-	All     bool                `json:"all"`
-	Force   bool                `json:"force"`
-	Entry   []string            `json:"entry"`    // package names, in the order given
-	From    string              `json:"from"`     // package whose directory is the working directory ("" = module root)
-	Patterns []string           `json:"patterns"` // explicit go/packages patterns (overrides Entry)
-	Gens    []GenSpec           `json:"gens"`
-	Globals map[string][]string `json:"globals"`
+	Dir      string              `json:"dir"`
+	Layout   string              `json:"layout"`
+	All      bool                `json:"all"`
+	Force    bool                `json:"force"`
+	Entry    []string            `json:"entry"`    // package names, in the order given
+	From     string              `json:"from"`     // package whose directory is the working directory ("" = module root)
+	Patterns []string            `json:"patterns"` // explicit go/packages patterns (overrides Entry)
+	Gens     []GenSpec           `json:"gens"`
+	Globals  map[string][]string `json:"globals"`
 	// Plan: "<pkgpath>|<gen>|<type>" -> behaviour of that GenerateType call (default "render"); see doCall.
 	Plan   map[string]string `json:"plan"`
 	Log    string            `json:"log"`    // NDJSON callback log, appended at every callback
@@ -259,10 +259,10 @@ func doCall(kind, gen string, stateful bool, st *genState, c gengo.Context, obj 
 type namer interface{ N() string }
 
 type (
-	nA  struct{}
-	nB  struct{}
-	nC  struct{}
-	nAB struct{}
+	nA   struct{}
+	nB   struct{}
+	nC   struct{}
+	nAB  struct{}
 	nAcB struct{}
 )
 
